@@ -38,7 +38,7 @@ func main() {
 
 // ---------------------------------------------------------------- running one script on the real code
 
-var modes = map[string]bool{"pipe": true, "rt": true, "wt": true, "tcp": true, "pub": true, "publ": true, "pubx": true, "echo": true}
+var modes = map[string]bool{"pipe": true, "rt": true, "wt": true, "tcp": true, "pub": true, "publ": true, "pubx": true, "echo": true, "plog": true, "wlog": true}
 
 func runCaseLocal(c corr.Case, emit func(i int, out string)) (res corr.Result) {
 	var w *world
@@ -96,6 +96,17 @@ func runCaseLocal(c corr.Case, emit func(i int, out string)) (res corr.Result) {
 					return "bad-op"
 				}
 				if r = w.acceptError(f[0] == "afail"); r == "bad-op" {
+					return r
+				}
+			} else if f[0] == "soak" {
+				if len(f) != 2 {
+					return "bad-op"
+				}
+				n, err := strconv.Atoi(f[1])
+				if err != nil || n < 1 || n > 200000 || strconv.Itoa(n) != f[1] {
+					return "bad-op"
+				}
+				if r = w.soak(n); r == "bad-op" {
 					return r
 				}
 			} else if f[0] == "stress" {
@@ -378,6 +389,30 @@ func fixedCases() []corr.Case {
 	for _, a := range killers {
 		out = append(out, mk("update-handler", "init 1 pipe", "conn", "uh 0", "pdata 0", "uh 0", "pdata 0", "send 0 aa", a+" 0", "drain 0", "conn"))
 	}
+	// a value attached to the session (Session.Set → absSessionInfo in every log line), before every ender
+	for _, v := range []string{"str", "kz", "nilkz"} {
+		for _, a := range killers {
+			out = append(out, mk("session-value", "init 1 pipe", "conn", "setv 0 "+v, "pdata 0", "send 0 aa", a+" 0", "drain 0", "conn"))
+		}
+		out = append(out, mk("session-value", "init 1 pub", "conn", "setv 0 "+v, "send 0 6869", "close 0", "conn", "setv 1 "+v, "hpanic 1"))
+	}
+	// a user-made logger: installed as the default one (plog) or handed to the server with WithLogger (wlog)
+	for _, mode := range []string{"plog", "wlog"} {
+		for _, a := range killers {
+			out = append(out, mk("custom-logger", "init 1 "+mode, "conn", "conn", "send 0 aa", a+" 0", "drain 0", "conn"))
+		}
+		out = append(out, mk("custom-logger", "init 2 "+mode, "burst 4", "cerr 0", "hpanic 0", "aerr", "conn", "setv 1 str", "close 1"))
+	}
+	// a long history of error-level log lines (one per surplus connection) before an ender that logs again
+	out = append(out,
+		mk("soak", "init 1 pipe", "conn", "soak 70000", "hpanic 0", "conn", "soak 10", "pclose 1"),
+		mk("soak", "init 0 pipe", "soak 1000", "conn"),
+		mk("soak", "init 2 echo", "burst 2", "soak 500", "herr 0", "conn"),
+	)
+	// many sessions of one manager started and ended in parallel
+	for seed := 1; seed <= 4; seed++ {
+		out = append(out, mk("stress", "init 1 pipe", "stress par "+strconv.Itoa(seed)))
+	}
 	// Accept errors: temporary ones are retried (three in a row stop the loop), a permanent one stops it
 	out = append(out,
 		mk("accept-error", "init 2 pipe", "conn", "aerr", "conn", "aerr", "aerr", "conn", "pclose 0", "conn"),
@@ -436,7 +471,7 @@ func genCase(r *rng.R, tier string, i int) corr.Case {
 	case r.Chance(1, 60):
 		return genOnExit(r)
 	case r.Chance(1, 150):
-		return corr.Case{Tag: "stress", Lines: []string{"init 1 pipe", "stress " + r.Pick("race", "race", "race", "big") + " " + strconv.Itoa(r.Intn(1<<20))}}
+		return corr.Case{Tag: "stress", Lines: []string{"init 1 pipe", "stress " + r.Pick("race", "race", "race", "big", "par") + " " + strconv.Itoa(r.Intn(1<<20))}}
 	case r.Chance(1, 25):
 		return genMalformed(r)
 	}
@@ -444,7 +479,7 @@ func genCase(r *rng.R, tier string, i int) corr.Case {
 	if r.Chance(1, 40) {
 		max = -1
 	}
-	lines := []string{"init " + strconv.Itoa(max) + " pipe"}
+	lines := []string{"init " + strconv.Itoa(max) + " " + r.Pick("pipe", "pipe", "pipe", "pipe", "pipe", "pipe", "pipe", "pipe", "plog", "wlog")}
 	nsess := 0
 	alive := map[int]bool{}
 	nops := r.Range(4, 14)
@@ -486,6 +521,14 @@ func genCase(r *rng.R, tier string, i int) corr.Case {
 		}
 		if r.Chance(1, 25) {
 			lines = append(lines, "uh "+ks)
+			continue
+		}
+		if r.Chance(1, 20) {
+			lines = append(lines, "setv "+ks+" "+r.Pick("str", "kz", "nilkz"))
+			continue
+		}
+		if count >= max && r.Chance(1, 40) {
+			lines = append(lines, "soak "+strconv.Itoa(r.Range(1, 300)))
 			continue
 		}
 		if r.Chance(1, 14) {
@@ -664,7 +707,7 @@ func genOnExit(r *rng.R) corr.Case {
 
 func genMalformed(r *rng.R) corr.Case {
 	ls := []string{"init 1 pipe", "conn"}
-	bad := []string{"wpart 0", "wpart 0 x", "wtemp 0 -1", "aerr 0", "stress", "stress race", "stress race x", "uh", "xpanic", "init 1 pubz", "burst 0", "burst 9", "burst", "burst x", "cerr", "send 0", "send 0 0", "send 0 0g", "send 0 AA", "close 1", "close", "pclose x", "conn 1", "frob 0", "init", "init 1", "init 1 foo", "hold", "send 5 aa", "rerr -1", "wto 0 0"}
+	bad := []string{"setv 0", "setv 0 zz", "soak", "soak 0", "soak x", "wpart 0", "wpart 0 x", "wtemp 0 -1", "aerr 0", "stress", "stress race", "stress race x", "uh", "xpanic", "init 1 pubz", "burst 0", "burst 9", "burst", "burst x", "cerr", "send 0", "send 0 0", "send 0 0g", "send 0 AA", "close 1", "close", "pclose x", "conn 1", "frob 0", "init", "init 1", "init 1 foo", "hold", "send 5 aa", "rerr -1", "wto 0 0"}
 	for j := r.Range(2, 6); j > 0; j-- {
 		if r.Chance(1, 3) {
 			ls = append(ls, r.Pick("send 0 aa", "pdata 0", "conn"))
@@ -746,7 +789,7 @@ func spec() corr.Spec {
 			}
 			return acc && act
 		},
-		Rule: "scripts of connection attempts (single and in bursts of 2..8 without observation in between) against maxConn -1..3 and, per session, Send (incl. zero-length), local Close, peer close, peer reading/not reading, handler data/error/panic/panic(nil), injected read/write errors, forced and real (60 ms read / 250 ms write) timeouts, failing Set*Deadline, a partial write followed by a timeout / temporary error, a failing conn.Close, repeated Start; every terminating event alone and in every ordered pair, with and without a blocked write and queued items; 0..5 queued sends before a local Close; sessions over net.Pipe through the real accept loop and over loopback TCP; a case is non-trivial when a session was started and at least one operation was applied to it; distinct = distinct script text",
+		Rule: "scripts of connection attempts (single and in bursts of 2..8 without observation in between) against maxConn -1..3 and, per session, Send (incl. zero-length), local Close, peer close, peer reading/not reading, handler data/error/panic/panic(nil), injected read/write errors, forced and real (60 ms read / 250 ms write) timeouts, failing Set*Deadline, a partial write followed by a timeout / temporary error, a failing conn.Close, repeated Start, a value attached with Set (plain, IKeyZap, typed nil), a user-made logger (default / WithLogger), long runs of surplus connections; every terminating event alone and in every ordered pair, with and without a blocked write and queued items; 0..5 queued sends before a local Close; sessions over net.Pipe through the real accept loop and over loopback TCP; a case is non-trivial when a session was started and at least one operation was applied to it; distinct = distinct script text",
 		Assumptions: []string{
 			"net.Conn behaviour is assumed at the transition level: closing a connection (or the peer closing) makes the blocked Read/Write of the other loop return an error; a Write to a peer that does not read blocks; deadlines fire (checked on net.Pipe and loopback TCP by the correspondence, not proved)",
 			"sync.Once, sync.Cond, atomic.Int32 behave as documented; the Go scheduler eventually runs a runnable goroutine",
